@@ -6,7 +6,7 @@
 //!   m, s = `<did>.<pq>.<frag>.<body>`      e = `E<m>` (embedded) | `R<did>.<pq>.<frag>` (reference)    frag `~` = none
 //!   `J`: the start document is deserialised from JSON; `B`: built through `DocumentBuilder`; `I`: an `IotaDocument`
 //!        deserialised from JSON (ids are IOTA DIDs), driven through IotaDocument's own mutators
-//!   op   = `im:<scope>:<m>` | `rm:<id>` | `is:<s>` | `rs:<id>` | `at:<form>:<id>:<rel>` | `dt:<form>:<id>:<rel>`
+//!   op   = `im:<scope>:<m>` | `rm:<id>` (remove_method_and_scope) | `rM:<id>` (remove_method) | `is:<s>` | `rs:<id>` | `at:<form>:<id>:<rel>` | `dt:<form>:<id>:<rel>`
 //!          | `S` (print the state) | `Q:<nd>:<np>:<nf>` (resolution battery over the id universe)
 //!   form = `F` (&DIDUrl) | `S` (its string) | `H` (`#fragment`) | `B` (bare fragment)
 //! Reply: `start:reject` or `start:ok <result> …` (one token per op).
@@ -359,8 +359,8 @@ fn scopes() -> Vec<Option<MethodScope>> {
 fn battery(d: &CoreDocument, nd: u32, np: u32, nf: u32, fail: &mut Option<String>) -> String {
   let mut meth: Vec<String> = vec![];
   let mut svc: Vec<String> = vec![];
-  // the DIDs 0..nd and DID 50 (another method, same method-specific id as DID 0)
-  for did in (0..nd).chain([50]) {
+  // the DIDs 0..nd, DID 50 (another method, same method-specific id as DID 0) and DID 10 (its string form extends DID 1's)
+  for did in (0..nd).chain([50, 10]) {
     for pq in 0..np {
       for f in 1..=nf {
         let i = Id { did, pq, frag: Some(f) };
@@ -400,6 +400,7 @@ pub(crate) trait DocLike: Clone + PartialEq {
   fn core(&self) -> &CoreDocument;
   fn im(&mut self, m: VerificationMethod, s: MethodScope) -> Result<(), DocError>;
   fn rm(&mut self, u: &DIDUrl) -> Option<(VerificationMethod, MethodScope)>;
+  fn rm_plain(&mut self, u: &DIDUrl) -> Option<VerificationMethod>;
   fn is(&mut self, s: Service) -> Result<(), DocError>;
   fn rs(&mut self, u: &DIDUrl) -> Option<Service>;
   fn at_url(&mut self, u: &DIDUrl, r: MethodRelationship) -> Result<bool, DocError>;
@@ -418,6 +419,9 @@ impl DocLike for CoreDocument {
   }
   fn rm(&mut self, u: &DIDUrl) -> Option<(VerificationMethod, MethodScope)> {
     self.remove_method_and_scope(u)
+  }
+  fn rm_plain(&mut self, u: &DIDUrl) -> Option<VerificationMethod> {
+    self.remove_method(u)
   }
   fn is(&mut self, s: Service) -> Result<(), DocError> {
     self.insert_service(s)
@@ -456,6 +460,9 @@ impl DocLike for identity_iota_core::IotaDocument {
   }
   fn rm(&mut self, u: &DIDUrl) -> Option<(VerificationMethod, MethodScope)> {
     self.remove_method_and_scope(u)
+  }
+  fn rm_plain(&mut self, u: &DIDUrl) -> Option<VerificationMethod> {
+    self.remove_method(u)
   }
   fn is(&mut self, s: Service) -> Result<(), DocError> {
     self.insert_service(s).map_err(iota_err)
@@ -552,6 +559,13 @@ fn run_on<D: DocLike>(doc: D, ops: &[&str]) -> String {
         Some(match doc.rm(&u) {
           None => "none".to_string(),
           Some((m, s)) => format!("{}@{}", show_method(&m), show_scope(s)),
+        })
+      })(),
+      ["rM", i] => (|| {
+        let u = mk_url(parse_id(i)?)?;
+        Some(match doc.rm_plain(&u) {
+          None => "none".to_string(),
+          Some(m) => show_method(&m),
         })
       })(),
       ["is", s] => (|| {
@@ -655,7 +669,7 @@ pub(crate) fn spec_line(id: u32, vm: &[(Id, u32)], rels: &[Vec<Result<(Id, u32),
 
 fn rid(r: &mut Rng) -> Id {
   Id {
-    did: if r.chance(1, 12) { 50 } else if r.chance(1, 5) { 1 } else { 0 },
+    did: if r.chance(1, 12) { 50 } else if r.chance(1, 10) { 10 } else if r.chance(1, 5) { 1 } else { 0 },
     pq: if r.chance(1, 4) { 1 + r.below(2) as u32 } else { 0 },
     frag: Some(1 + r.below(3) as u32),
   }
@@ -715,7 +729,8 @@ fn random_op(r: &mut Rng) -> String {
     0..=5 => format!("im:{}:{}", r.pick(&["vm", "vm", "0", "1", "2", "3", "4"]), show_idb(rid(r), 10 + r.below(90) as u32)),
     6..=9 => format!("at:{}:{}:{}", form(r), show_id(rid(r)), r.below(5)),
     10..=11 => format!("dt:{}:{}:{}", form(r), show_id(rid(r)), r.below(5)),
-    12..=14 => format!("rm:{}", show_id(rid(r))),
+    12..=13 => format!("rm:{}", show_id(rid(r))),
+    14 => format!("rM:{}", show_id(rid(r))),
     15..=17 => format!("is:{}", show_idb(rid(r), 10 + r.below(90) as u32)),
     _ => format!("rs:{}", show_id(rid(r))),
   }
@@ -768,6 +783,7 @@ pub fn gen(thorough: bool, seed: u64, out: &mut impl Write) {
       ops.push(format!("im:{}:{}", s, show_idb(i, 40 + i.did * 4 + i.pq * 2 + i.frag.unwrap())));
     }
     ops.push(format!("rm:{}", show_id(i)));
+    ops.push(format!("rM:{}", show_id(i)));
     ops.push(format!("is:{}", show_idb(i, 50)));
     ops.push(format!("rs:{}", show_id(i)));
     for f in ["F", "H"] {
